@@ -831,6 +831,21 @@ def case_from_lists(ctx, s: Subject):
              features=(which, f"dup={len(set(map(str, labels))) < n}"), nontrivial=s.nontrivial())
 
 
+def case_from_lists_empty(ctx):
+    """from_lists on a frame with zero rows (the special-cased branch of the implementation)"""
+    rng = ctx.rng
+    t = rng.choice(["int64", "double", "string"])
+    df = NestedFrame({"id": np.array([], dtype=np.int64), "l": pd.Series([], dtype=pd.ArrowDtype(pa.list_(TYPES[t])))})
+    with_base = rng.random() < 0.5
+
+    def run():
+        r = NestedFrame.from_lists(df, base_columns=["id"] if with_base else None, list_columns=["l"], name="n")
+        return {"cls": type(r).__name__, "len": len(r), "ty": export.dtype_ty(r["n"].dtype)}
+    real = call_real(run)
+    ctx.case("from_lists.empty", {"ty": t, "with_base": with_base}, real, None, {"ok": {"cls": "NestedFrame", "len": 0, "ty": [["l", t]]}},
+             hyp={"empty_frame": True}, features=("empty", f"base={with_base}"), mode="empty")
+
+
 def case_new_nest_setitem(ctx):
     """frame['new_nest.field'] = flat series"""
     rng = ctx.rng
